@@ -18,19 +18,26 @@ func VerifLemma_C02A_CompareOrder() {
 	verifAssert(ab == -ba, "antisymmetric")
 	verifAssert(vSign(fileAnnotationCompareTo(a, a)) == 0, "reflexive")
 	verifAssert((ab == 0) == vSameKeyFields(a, b), "compare is 0 iff all sort-key fields are equal")
-	if verifParam("THREE") == 0 {
-		return
-	}
+}
+
+// VerifLemma_C02A_CompareTransitive: a<=b and b<=c imply a<=c, with a<c unless both are equivalences.
+// (The other sign combinations follow from antisymmetry, decided by C02-A.compare-order.)
+func VerifLemma_C02A_CompareTransitive() {
+	pn, tn, mn := verifParam("PATH"), verifParam("TYPE"), verifParam("MSG")
+	a := vNondetAnnotation(pn, tn, mn, 0, vMinInt, vMaxInt)
+	b := vNondetAnnotation(pn, tn, mn, 0, vMinInt, vMaxInt)
+	ab := fileAnnotationCompareTo(a, b)
+	verifAssume(ab <= 0)
 	c := vNondetAnnotation(pn, tn, mn, 0, vMinInt, vMaxInt)
-	bc := vSign(fileAnnotationCompareTo(b, c))
-	ac := vSign(fileAnnotationCompareTo(a, c))
+	bc := fileAnnotationCompareTo(b, c)
+	verifAssume(bc <= 0)
+	ac := fileAnnotationCompareTo(a, c)
 	verifCover("three compared")
-	if ab <= 0 && bc <= 0 {
-		if ab == 0 && bc == 0 {
-			verifAssert(ac == 0, "equivalence is transitive")
-		} else {
-			verifAssert(ac < 0, "order is transitive")
-		}
+	if ab == 0 && bc == 0 {
+		verifCover("all equivalent")
+		verifAssert(ac == 0, "equivalence is transitive")
+	} else {
+		verifAssert(ac < 0, "order is transitive")
 	}
 }
 
@@ -41,4 +48,24 @@ func VerifLemma_C02A_CompareNil() {
 	verifAssert(fileAnnotationCompareTo(nil, nil) == 0, "nil == nil")
 	verifAssert(fileAnnotationCompareTo(nil, a) < 0, "nil < non-nil")
 	verifAssert(fileAnnotationCompareTo(a, nil) > 0, "non-nil > nil")
+}
+
+// VerifLemma_C02A_HashInts: hash() identifies an annotation: with path, type and message fixed, equal hashes imply
+// equal (startLine, startColumn, endLine, endColumn). sha256 is the engine's collision-free uninterpreted hash, so
+// a counterexample is a collision of hash()'s own pre-image encoding, not of SHA-256.
+func VerifLemma_C02A_HashInts() {
+	hi := verifParam("MAXPOS")
+	a := newFileAnnotation(nil, verifNondetInt(0, hi), verifNondetInt(0, hi), verifNondetInt(0, hi), verifNondetInt(0, hi), "T", "m", "")
+	b := newFileAnnotation(nil, verifNondetInt(0, hi), verifNondetInt(0, hi), verifNondetInt(0, hi), verifNondetInt(0, hi), "T", "m", "")
+	ha, hb := hash(a), hash(b)
+	verifCover("hashed")
+	same := a.startLine == b.startLine && a.startColumn == b.startColumn && a.endLine == b.endLine && a.endColumn == b.endColumn
+	if same {
+		verifAssert(ha == hb, "equal annotations have equal hashes")
+		return
+	}
+	if verifKnown("F4-hash-no-separators", ha == hb) {
+		return
+	}
+	verifAssert(ha != hb, "annotations differing in a position have different hashes")
 }
